@@ -438,4 +438,45 @@ def r13_9(ctx: Ctx) -> RuleResult:
     return rr
 
 
-RULES = [r13_1, r13_2, r13_3, r13_4, r13_5, r13_6, r13_7, r13_8, r13_9]
+def r13_10(ctx: Ctx) -> RuleResult:
+    """`_` reads the caller's mapping at every nesting depth and through both twins: every evaluation context and every
+    child match carries its parent's filter context (= R2.3)."""
+    from .c02 import r2_3
+
+    return r2_3(ctx, "R13.10")
+
+
+def r13_11(ctx: Ctx) -> RuleResult:
+    """`#` is the member name or the array index of the candidate - also when that is 0 or the empty name.
+    CurrentKey.evaluate is executed abstractly for the keys 0, 1, "", "a" (the key itself must come back) and for a
+    context without a key (anything but a key)."""
+    from sa.peval import UNKNOWN
+
+    from .model import RAISES
+    from .model import MObj
+    from .model import Model
+
+    rr = RuleResult("R13.11", "the current-key identifier is the key itself, 0 and the empty name included", floor=4)
+    cls = ctx.repo.require_class("jsonpath.filter.CurrentKey")
+    for mname in ("evaluate", "evaluate_async"):
+        fn = ctx.repo.find_method(cls, mname)
+        if fn is None:
+            raise AnalysisError(f"R13.11: CurrentKey.{mname} not found")
+        for key in (0, 1, "", "a"):
+            model = Model(ctx, "R13.11")
+            model.whole_bodies = True
+            node = MObj(model, "CurrentKey", {"volatile": True})
+            context = MObj(model, "FilterContext", {"current_key": key, "current": UNKNOWN, "root": UNKNOWN, "extra_context": UNKNOWN, "env": UNKNOWN})
+            got = model.call(node, mname, [context])
+            if got is UNKNOWN:
+                raise AnalysisError(f"R13.11: the value of `#` for the key {key!r} cannot be determined in CurrentKey.{mname}")
+            if got is not RAISES and got == key and type(got) is type(key):
+                rr.ok(fn.loc(), f"CurrentKey.{mname}: key {key!r} -> {key!r}")
+            else:
+                rr.bad(fn, fn.node, f"for a candidate whose key is {key!r} the current-key identifier evaluates to {got!r} instead of the key: "
+                       + ("the first element of an array / the member with the empty name has no `#`" if not key else "the wrong key"),
+                       construct=f"CurrentKey.{mname}: key {key!r} -> {got!r}")
+    return rr
+
+
+RULES = [r13_1, r13_2, r13_3, r13_4, r13_5, r13_6, r13_7, r13_8, r13_9, r13_10, r13_11]
